@@ -4525,4 +4525,69 @@ example : ((parseRecipe (α := Rat) C07_coreEnv (render ([] ++ plDocSpec C07_sDo
       (fun d => d.stage == .parse)) = [⟨.warning, .parse, "invalid-single-word-name", [⟨25, 25⟩]⟩] := by
   decide +kernel
 
+/-- **A single-word timer `~name`, wherever it stands and whatever follows it** (`~zt`, `~zt(note)`; the single-word
+    FORM of the timer entries of the catalogue: timer without duration, note on a timer).  `W` are word / number
+    tokens, the token after them is none of these, no `{` lies before the next marker.  From every state at that
+    position ONE iteration of the step loop consumes exactly `~ W` and pushes EXACTLY: the warning
+    `note-not-allowed:timer` iff `(` … `)` follows; then `timer-missing-quantity` (error, parse; the position at the end
+    of the name — there are no braces to point at) under TIMER_REQUIRES_TIME, otherwise
+    `timer-neither-name-nor-quantity` iff the name text is blank; then the timer named `W` on the byte range of `~ W`
+    (quantity: the recovery value iff an error was raised).  No modifier / alias diagnostic is possible in this form. -/
+theorem C07_planted_single_word_timer (T A rest : List Tok) (cs : CharSpec) (e : Ext) (hw : WF T) (tm : Tok)
+    (W : List Tok) (hT : T = A ++ ((tm :: W) ++ rest)) (hk : tm.kind = .tilde)
+    (hW : ∀ t ∈ W, wordKind t.kind = true) (hne : W ≠ [])
+    (hR : ∀ t, rest.head? = some t → wordKind t.kind = false) (hnb : noBraceFirst rest = true) :
+    PlPieceAt (α := α) T cs e A ⟨tm :: W, fun evs =>
+      evs = c07w_noteEvs T (A.length + (tm :: W).length) ++
+        c07w_timerFinishEvs (offAt T (A.length + 1)) ⟨W, none, none⟩ (buildText (offAt T (A.length + 1)) W) cs e ++
+        [.timer ⟨⟨if (buildText (offAt T (A.length + 1)) W).isTextEmpty cs then none
+            else some (buildText (offAt T (A.length + 1)) W),
+          c07w_timerFinishQty (buildText (offAt T (A.length + 1)) W) cs e⟩,
+          ⟨offAt T A.length, offAt T (A.length + (tm :: W).length)⟩⟩]⟩ :=
+  c07s_timer_short_piece T A rest cs e tm W hT hw hk hW hne hR hnb
+
+/-- **Instance: a single-word timer planted in a document.**  The construct is given by SPECIFICATION tokens
+    `~ WS`; the conditions are on them and on the specified tokens after the construct.  On every actual block the
+    construct is a piece with the events of `C07_planted_single_word_timer` on the actual tokens
+    (`c07s_timerShortSpec`): the hypothesis `hB` of `C07_planted_document`. -/
+theorem C07_planted_document_single_word_timer (env : Env) (pre post : List SegX) (tmS : Tok) (WS : List Tok)
+    (hk : tmS.kind = .tilde) (hW : ∀ t ∈ WS, wordKind t.kind = true) (hne : WS ≠ [])
+    (hR : ∀ t, (post.flatMap SegX.spell).head? = some t → wordKind t.kind = false)
+    (hnb : noBraceFirst (post.flatMap SegX.spell) = true) :
+    ∀ (T tpre tB tpost : List Tok), T = tpre ++ (tB ++ tpost) → Spells tpre (pre.flatMap SegX.spell) →
+      Spells tB (tmS :: WS) → Spells tpost (post.flatMap SegX.spell) → RunAt (baseOff T) T →
+      PlPieceAt (α := α) T env.cs env.ext tpre ⟨tB, c07s_timerShortSpec env.cs env.ext WS T tpre tB⟩ :=
+  fun T tpre tB tpost hT _ hsB hpost hrun =>
+    c07s_timer_short_pieceAt env.cs env.ext tmS WS _ hk hW hne hR hnb T tpre tB tpost hT hsB hpost hrun
+
+/-! non-vacuity: the document `>> source: grandma` / blank / `Use ~zt now` under TIMER_REQUIRES_TIME: all hypotheses of
+    `C07_planted_document` decided, `hB` from the instance; evaluated report: exactly `timer-missing-quantity` ⟨27,27⟩
+    (the end of the name), no output; `Use ~zt(a) now`: the note warning first. -/
+def C07_sEnvT : Env := { C07_coreEnv with ext := ⟨Gen.EXT_TIMER_REQUIRES_TIME⟩ }
+def C07_sB2 : List Tok := [tk .tilde ['~'], tk .word "zt".toList]
+def C07_sSpec2 : List Tok → List Tok → List Tok → List (Ev Rat) → Prop :=
+  c07s_timerShortSpec C07_sEnvT.cs C07_sEnvT.ext [tk .word "zt".toList]
+def C07_sDoc2 : List (PlBlock Rat × List Tok) :=
+  plantedDoc toyCharSpec C07_dDocA [] C07_plPre' C07_plPost C07_sB2 [C01_nl] C07_sSpec2
+example : render ([] ++ plDocSpec C07_sDoc2) = ">> source: grandma\n\nUse ~zt now\n".toList := by decide
+example : ∃ (T tpre tB tpost : List Tok) (evsB : List (Ev Rat)),
+    T <:+: lex toyCharSpec (render ([] ++ plDocSpec C07_sDoc2)) ∧ T = tpre ++ (tB ++ tpost) ∧
+    Spells tB C07_sB2 ∧ C07_sSpec2 T tpre tB evsB ∧
+    (parseRecipe (α := Rat) C07_sEnvT (render ([] ++ plDocSpec C07_sDoc2))).diags.toList.filter
+      (fun d => d.stage == .parse) = evDiags evsB := by
+  obtain ⟨T, tpre, tB, tpost, evsB, h1, h2, -, h4, -, h6, h7, -⟩ :=
+    C07_planted_document (α := Rat) C07_sEnvT [] C07_dDocA [] C07_plPre' C07_plPost C07_sB2 [C01_nl] C07_sSpec2
+      (by decide) (by decide) (by intro d h; cases h) (by decide)
+      (C07_planted_document_single_word_timer C07_sEnvT C07_plPre' C07_plPost (tk .tilde ['~'])
+        [tk .word "zt".toList] rfl (by decide) (by decide)
+        (by intro t h; simp [C07_plPost, SegX.spell] at h; subst h; decide) (by decide))
+      (by decide) (by decide) (by decide)
+  exact ⟨T, tpre, tB, tpost, evsB, h1, h2, h4, h6, h7⟩
+example : ((parseRecipe (α := Rat) C07_sEnvT (render ([] ++ plDocSpec C07_sDoc2))).diags.toList,
+      (parseRecipe (α := Rat) C07_sEnvT (render ([] ++ plDocSpec C07_sDoc2))).output.isSome) =
+    ([⟨.error, .parse, "timer-missing-quantity", [⟨27, 27⟩]⟩], false) := by decide +kernel
+example : (parseRecipe (α := Rat) C07_sEnvT ">> source: grandma\n\nUse ~zt(a) now\n".toList).diags.toList =
+    [⟨.warning, .parse, "note-not-allowed:timer", [⟨27, 30⟩, ⟨27, 27⟩]⟩,
+     ⟨.error, .parse, "timer-missing-quantity", [⟨27, 27⟩]⟩] := by decide +kernel
+
 end Cook
